@@ -139,6 +139,9 @@ func main() {
 	if len(os.Args) > 1 && os.Args[1] == "check" {
 		os.Exit(checkMain(os.Args[2:]))
 	}
+	if len(os.Args) > 2 && os.Args[1] == "replay" {
+		os.Exit(replayMain(os.Args[2]))
+	}
 	repo := flag.String("repo", "/repo", "")
 	spec := flag.String("spec", "/verif/spec", "")
 	out := flag.String("out", "/verif/out/dev", "")
